@@ -176,6 +176,22 @@ class _Fold(ast.NodeTransformer):
                 orelse=node.values[1]), node)
         return node
 
+    def visit_Expr(self, node):
+        self.generic_visit(node)
+        # setattr(x, 'name', v)  ->  x.name = v
+        c = node.value
+        if isinstance(c, ast.Call) and isinstance(c.func, ast.Name) and \
+                c.func.id == 'setattr' and len(c.args) == 3 and \
+                not c.keywords and isinstance(c.args[1], ast.Constant) and \
+                isinstance(c.args[1].value, str) and \
+                c.args[1].value.isidentifier():
+            return ast.copy_location(ast.Assign(
+                targets=[ast.Attribute(value=c.args[0],
+                                       attr=c.args[1].value,
+                                       ctx=ast.Store())],
+                value=c.args[2]), node)
+        return node
+
     def visit_Call(self, node):
         self.generic_visit(node)
         if isinstance(node.func, ast.Name) and node.func.id == 'getattr' \
@@ -391,6 +407,25 @@ def known_private(rel):
     return set(_KNOWN.get(rel, ()))
 
 
+_KNOWN_ALL = None
+
+
+def known_functions(rel):
+    """All function / method names of the reviewed tree for module `rel`
+    (None when the module itself is new)."""
+    global _KNOWN_ALL
+    if _KNOWN_ALL is None:
+        p = _os.path.join(_os.path.dirname(_os.path.abspath(__file__)),
+                          'known_functions.json')
+        try:
+            with open(p) as fh:
+                _KNOWN_ALL = _json.load(fh)
+        except OSError:
+            _KNOWN_ALL = {}
+    v = _KNOWN_ALL.get(rel)
+    return set(v) if v is not None else None
+
+
 def _single_exit(fd):
     """Body without docstring when the helper is inlinable: no nested
     defs / yields / global, return only as the last top-level statement."""
@@ -430,33 +465,80 @@ def _tail_returns_to_single_exit(body):
                 if isinstance(n, ast.Return))
     seen = [0]
 
+    def has_ret(stmts):
+        return any(isinstance(n, ast.Return) for st in stmts
+                   for n in ast.walk(st))
+
     def conv(blk):
+        """Block in which every path ends in a return -> the same block
+        assigning `_result` instead; None when that is not its shape."""
         if not blk:
             return None
-        last = blk[-1]
-        head = blk[:-1]
-        if isinstance(last, ast.Return):
-            seen[0] += 1
-            val = last.value if last.value is not None else \
-                ast.Constant(None)
-            return head + [ast.copy_location(ast.Assign(
-                targets=[ast.Name(id='_result', ctx=ast.Store())],
-                value=val), last)]
-        if isinstance(last, ast.If) and last.orelse:
-            b1 = conv(last.body)
-            b2 = conv(last.orelse)
-            if b1 is None or b2 is None:
+        for i, st in enumerate(blk):
+            if isinstance(st, ast.Return):
+                if i != len(blk) - 1:
+                    return None
+                seen[0] += 1
+                val = st.value if st.value is not None else \
+                    ast.Constant(None)
+                if width[0]:
+                    # every return is a tuple of the same length: one
+                    # result variable per position
+                    return blk[:i] + [ast.copy_location(ast.Assign(
+                        targets=[ast.Name(id='_result%d' % k,
+                                          ctx=ast.Store())],
+                        value=v_), st) for k, v_ in enumerate(val.elts)]
+                return blk[:i] + [ast.copy_location(ast.Assign(
+                    targets=[ast.Name(id='_result', ctx=ast.Store())],
+                    value=val), st)]
+            if not has_ret([st]):
+                continue
+            if not isinstance(st, ast.If):
                 return None
-            new = ast.copy_location(ast.If(test=last.test, body=b1,
-                                           orelse=b2), last)
-            return head + [new]
+            rest = blk[i + 1:]
+            b_ret, o_ret = has_ret(st.body), has_ret(st.orelse)
+            if b_ret and o_ret and not rest:
+                b1, b2 = conv(st.body), conv(st.orelse)
+                if b1 is None or b2 is None:
+                    return None
+                return blk[:i] + [ast.copy_location(ast.If(
+                    test=st.test, body=b1, orelse=b2), st)]
+            if b_ret and not o_ret and rest:
+                # if c: ...return   [else: plain]   rest...
+                b1 = conv(st.body)
+                b2 = conv(list(st.orelse) + rest)
+                if b1 is None or b2 is None:
+                    return None
+                return blk[:i] + [ast.copy_location(ast.If(
+                    test=st.test, body=b1, orelse=b2), st)]
+            if o_ret and not b_ret and rest:
+                b1 = conv(list(st.body) + rest)
+                b2 = conv(st.orelse)
+                if b1 is None or b2 is None:
+                    return None
+                return blk[:i] + [ast.copy_location(ast.If(
+                    test=st.test, body=b1, orelse=b2), st)]
+            return None
         return None
     body = copy.deepcopy(body)
+    rets_ = [n for st in body for n in ast.walk(st)
+             if isinstance(n, ast.Return)]
+    width = [0]
+    if rets_ and all(isinstance(r.value, ast.Tuple) and not any(
+            isinstance(e, ast.Starred) for e in r.value.elts)
+            for r in rets_) and len({len(r.value.elts)
+                                     for r in rets_}) == 1:
+        width[0] = len(rets_[0].value.elts)
     out = conv(body)
     if out is None or seen[0] != n_ret:
         return None
-    out.append(ast.copy_location(ast.Return(
-        value=ast.Name(id='_result', ctx=ast.Load())), body[-1]))
+    if width[0]:
+        out.append(ast.copy_location(ast.Return(value=ast.Tuple(
+            elts=[ast.Name(id='_result%d' % k, ctx=ast.Load())
+                  for k in range(width[0])], ctx=ast.Load())), body[-1]))
+    else:
+        out.append(ast.copy_location(ast.Return(
+            value=ast.Name(id='_result', ctx=ast.Load())), body[-1]))
     for st in out:
         ast.fix_missing_locations(st)
     return out
@@ -610,7 +692,21 @@ class _StmtInliner:
                         body, ret = res
                         none = ast.copy_location(ast.Constant(None), st)
                         out.extend(body)
-                        if kind == 'assign':
+                        if kind == 'assign' and len(st.targets) == 1 and \
+                                isinstance(st.targets[0], ast.Tuple) and \
+                                isinstance(ret, ast.Tuple) and len(
+                                st.targets[0].elts) == len(ret.elts) and \
+                                all(isinstance(r_, (ast.Name, ast.Constant))
+                                    for r_ in ret.elts) and all(
+                                isinstance(t_, ast.Name)
+                                for t_ in st.targets[0].elts):
+                            # a, b = helper(...) with `return x, y`: the
+                            # helper's locals are fresh names, so the
+                            # element-wise assignments are equivalent
+                            for t_, r_ in zip(st.targets[0].elts, ret.elts):
+                                out.append(ast.copy_location(ast.Assign(
+                                    targets=[t_], value=r_), st))
+                        elif kind == 'assign':
                             out.append(ast.copy_location(ast.Assign(
                                 targets=st.targets,
                                 value=ret if ret is not None else none), st))
@@ -631,6 +727,7 @@ def inline_new_helpers(tree, rel):
     """Inline, statement-wise, calls of private single-exit helpers that the
     reviewed tree did not have.  Returns the qualified names inlined."""
     known = known_private(rel)
+    allf = known_functions(rel)
     helpers = {}
     class_names = set()
 
@@ -641,8 +738,15 @@ def inline_new_helpers(tree, rel):
                 collect(n.body, n.name)
             elif isinstance(n, ast.FunctionDef):
                 q = (cls + '.' if cls else '') + n.name
-                if n.name.startswith('_') and not n.name.startswith('__') \
-                        and q not in known and _single_exit(n) is not None:
+                # a helper the reviewed tree did not have: private ones by
+                # the frozen private list, public ones by the frozen list of
+                # all functions (a newly extracted public function or
+                # method is still an extraction)
+                new = (n.name.startswith('_') and q not in known) or (
+                    not n.name.startswith('_') and allf is not None and
+                    q not in allf)
+                if new and not n.name.startswith('__') and \
+                        _single_exit(n) is not None:
                     helpers[(cls, n.name)] = n
     collect(tree.body, '')
     if not helpers:
@@ -969,9 +1073,10 @@ def flat_view(module_tree, rel, fn, cls_name=None, depth=2):
             holder = ast.Module(body=body, type_ignores=[])
             extra.extend(body)
             work.append((holder, d + 1))
-    if extra:
-        out.body = list(out.body) + extra
-        ast.fix_missing_locations(out)
+    if not extra:
+        return fn           # nothing to add: the function itself
+    out.body = list(out.body) + extra
+    ast.fix_missing_locations(out)
     return out
 
 
@@ -1153,7 +1258,44 @@ def _inline_return_temps(tree):
                     i += 1
 
 
+def _split_tuple_assigns(tree):
+    """`a, b = X, Y` is read as `a = X; b = Y` when no target is read by any
+    of the values (not a swap) and all targets are plain names."""
+    def split(blk):
+        i = 0
+        while i < len(blk):
+            st = blk[i]
+            if isinstance(st, ast.Assign) and len(st.targets) == 1 and \
+                    isinstance(st.targets[0], (ast.Tuple, ast.List)) and \
+                    isinstance(st.value, (ast.Tuple, ast.List)) and \
+                    len(st.targets[0].elts) == len(st.value.elts) and all(
+                    isinstance(t, ast.Name) for t in st.targets[0].elts) \
+                    and not any(isinstance(v, ast.Starred)
+                                for v in st.value.elts):
+                tn = {t.id for t in st.targets[0].elts}
+                reads = {x.id for v in st.value.elts for x in ast.walk(v)
+                         if isinstance(x, ast.Name)}
+                if not (tn & reads) and len(tn) == len(st.targets[0].elts):
+                    new = [ast.copy_location(ast.Assign(
+                        targets=[t], value=v), st)
+                        for t, v in zip(st.targets[0].elts, st.value.elts)]
+                    blk[i:i + 1] = new
+                    i += len(new)
+                    continue
+            i += 1
+    for node in ast.walk(tree):
+        for fld in ('body', 'orelse', 'finalbody'):
+            blk = getattr(node, fld, None)
+            if isinstance(blk, list) and blk and isinstance(blk[0],
+                                                            ast.stmt):
+                split(blk)
+        if isinstance(node, ast.Try):
+            for h in node.handlers:
+                split(h.body)
+
+
 def canonical_forms(tree):
+    _split_tuple_assigns(tree)
     _inline_return_temps(tree)
     new = _Canon().visit(tree)
     ast.fix_missing_locations(new)
